@@ -49,9 +49,23 @@ class IndexTable:
         self.requests = []
 
     def __getitem__(self, key):
+        if isinstance(key, slice):
+            # the whole index rows of the selected events (all tables), to be narrowed to one table afterwards
+            return _IndexRows(self, key)
         slc, index = key
         self.requests.append((slc, index))
         return np.array([[p[0], p[1]] for p in self.pairs])
+
+
+class _IndexRows:
+    def __init__(self, table, slc):
+        self.table = table
+        self.slc = slc
+
+    def __getitem__(self, key):
+        rows, index = key
+        self.table.requests.append((self.slc, index))
+        return np.array([[p[0], p[1]] for p in self.table.pairs])
 
 
 class FakeFile:
@@ -369,15 +383,17 @@ def _replay(sizes, slice_range):
             tag += 1
         readers.append(FakeReader(evs))
     opened = []
+    # file names whose given order is NOT their lexicographic order: the replay follows the list as given
+    names = ["run_9.h5", "run_10.h5", "run_2.h5"][:len(sizes)]
 
     def file_stub(cls, name, mode="r", *args, **kwargs):
         opened.append(name)
-        return readers[name]
+        return readers[names.index(name)]
     use_stub("pyrex.io.File.__new__", file_stub)
     use_stub("pyrex.particle.Particle.__init__", FakeParticle.__init__)
     made = []
     use_stub("pyrex.particle.Event.__init__", lambda self, roots: made.append(roots) or setattr(self, "roots", roots))
-    g = new(FG, list(range(len(sizes))), slice_range=slice_range, interaction_model="model")
+    g = new(FG, list(names), slice_range=slice_range, interaction_model="model")
     got = []
     counts = []
     stopped = False
@@ -407,7 +423,7 @@ def _replay(sizes, slice_range):
             want.append(done + 10 * (j + 1))
         done += 10 * n
     prove(name + ":count-accumulates-per-file-thrown-counts", counts == want)
-    prove(name + ":files-opened-in-order", opened == [i for i in range(len(sizes))][:len(opened)])
+    prove(name + ":files-opened-in-the-given-order", opened == names[:len(opened)])
 
 
 @harness(clause="file-generator", label="B")
